@@ -431,7 +431,11 @@ pub fn run(tier: Tier) -> i32 {
             _ => {
                 if stderr.contains("Undefined Behavior") || stderr.contains("memory leaked") || stderr.contains("error: unsupported operation") || stderr.contains("panicked at") {
                     let current = stdout.lines().rev().find_map(|l| l.strip_prefix("MIRI-RUN ")).unwrap_or("?").to_string();
-                    let diag: Vec<&str> = stderr.lines().filter(|l| l.starts_with("error") || l.contains("panicked at") || l.contains("-->")).take(4).collect();
+                    // the Miri report starts at the first line beginning with "error" (rustc's build
+                    // warnings for the crate come before it) or at a panic message
+                    let lines: Vec<&str> = stderr.lines().collect();
+                    let start = lines.iter().position(|l| l.starts_with("error") || l.contains("panicked at")).unwrap_or(0);
+                    let diag: Vec<&str> = lines[start..].iter().copied().filter(|l| !l.trim().is_empty()).take(4).collect();
                     rep.acc.violation(Violation {
                         signature: format!("miri;{current}"),
                         summary: format!("C17: Miri diagnostic in scenario `{current}`: {}", diag.join(" | ")),
